@@ -37,7 +37,7 @@ func init() {
 	})
 	property(&Property{
 		ID:      "C06",
-		Rules:   []string{"SA-J", "SA-S", "SA-E", "SA-J3"},
+		Rules:   []string{"SA-J", "SA-S", "SA-E", "T-enum", "SA-J3"},
 		Explain: "Same product as C05, comparing in addition the lexical events: on every byte and at end of input the formats/json scanner model must emit exactly the events of the reference transducer (types, order, and spans written relative to the consumed byte and to the begin offsets of the open events): literal/key spans = the source token, container spans from opening to closing bracket, wrappers closed on the first byte after the value. SA-S / SA-E run the same product against the schema scanner and the enum-rule scanner restricted to plain JSON input: every byte the reference accepts must be accepted with the same events (new-line events dropped; exponents, and for enum rules non-array roots and nested containers, are documented deviations; duplicate detection of the enum scanner abstracted).",
 		Assume: []string{
 			"rebuilding the JSON value from the events is not decided (content is symbolic)",
@@ -106,7 +106,7 @@ func init() {
 	})
 	property(&Property{
 		ID:    "C02",
-		Rules: []string{"T3", "T4", "T6", "T9", "T14", "T-cmp"},
+		Rules: []string{"T3", "T4", "T6", "T9", "T14", "T-cmp", "T-enum"},
 		Explain: "T3: Min/Max.Validate accept a probe iff probe >= min (> when exclusive) / probe <= max (< when exclusive) for all orderings and flag values, the probe being the parsed document number and the bound the rule's own number (exact comparison Number.Cmp is an ordering atom; the five comparison helpers are interpreted). T4: minLength/maxLength compare the length of the decoded string, minItems/maxItems the child count, precision the number of fractional digits of the parsed number, with the right comparator for every ordering. T6: a true exclusiveMinimum/Maximum makes exactly the matching bound exclusive, a false one is inert, the helper rule is removed. T9: nullable:false and const:false are removed by the compiler's filter and nothing else is; Const.Validate is inert when false and compares with the example when true. T14: ValidateLiteralValue runs every literal rule of the node exactly once on the document literal, except that a null admitted by nullable:true is accepted without running any other rule.",
 		Assume: []string{
 			"correctness of Number.Cmp's digit arithmetic, of string decoding, and of the regex/e-mail/URI/UUID/date predicates (standard library) is not decided",
@@ -143,7 +143,7 @@ func init() {
 	})
 	property(&Property{
 		ID:    "C16",
-		Rules: []string{"OR-1", "T12"},
+		Rules: []string{"OR-1", "T12", "T-ast"},
 		Explain: "OR-1: inside the once-only loader the call that builds the AST dominates loader.CompileBasic, load() dominates CompileAllOf/AddUnnamedTypes/the checkers in the once-only compiler, and GetAST returns the field the built tree is stored to — the AST mirrors the text because it is taken before any compilation step rewrites or deletes constraints. T12: the declared-or-inferred schema type of a node, judged on all 16 combinations of the indicators enum/or/type/precision and every JSON kind: enum => enum, or => mixed, type => its value, precision alone => decimal, none => the JSON kind.",
 		Assume: []string{
 			"field-by-field content of AST nodes, rule order and nested items, comment attachment and the generated/manual marking are not decided",
@@ -155,7 +155,7 @@ func init() {
 	})
 	property(&Property{
 		ID:    "C11",
-		Rules: []string{"MO", "PL-1", "PL-2", "PL-3", "PL-4"},
+		Rules: []string{"MO", "AL-1", "PL-1", "PL-2", "PL-3", "PL-4"},
 		Explain: "MO: every range over a Go map in the library (inventory on each run) is order-insensitive by construction (the body only inserts/deletes entries keyed by the iteration key, counts, calls functions that can neither panic nor write shared memory — decided by an effect summary over the call graph — or collects keys that are sorted before use) or is in the reviewed table with the reason why the order cannot reach a verdict, error code, position, AST or example; a reviewed loop whose exits/writes/effectful calls change is reported again. PL-1: no alias of a pooled buffer's storage is returned, stored or captured by a function that puts the buffer back (the Example() slice must not be overwritten by later calls). PL-2: every field of the pooled loader is assigned in reset(). PL-3: json.Document rewinds before and after Check/Len.",
 		Assume: []string{
 			"history independence beyond the enumerated once/pool/rewind objects and stability of returned AST values are not decided",
@@ -168,7 +168,7 @@ func init() {
 	})
 	property(&Property{
 		ID:    "C12",
-		Rules: []string{"SW-1", "SW-3", "PL-1", "PL-4", "OM-lock"},
+		Rules: []string{"SW-1", "SW-3", "AL-1", "PL-1", "PL-4", "OM-lock"},
 		Explain: "SW-1: no function reachable from (*Schema).validate or (*exampleBuilder).Build (VTA call graph; callbacks accounted at the call sites of higher-order helpers) stores to a field, slice element or map of a schema / constraint / AST type or to a package variable, except into objects it has just allocated — validation and example building only read the shared compiled schema. PL-1: the pooled example buffer's storage does not escape (the concurrent-Example race). OM-lock: the ordered maps hold their RWMutex around every access.",
 		Assume: []string{
 			"compile-time sharing of added types between root schemas (in-place allOf expansion of an added type used by two roots) is NOT covered by these rules — a known weakness of the pinned tree that the property names",
@@ -193,7 +193,7 @@ func init() {
 	})
 	property(&Property{
 		ID:    "C03",
-		Rules: []string{"T10", "T-tree", "T-list", "T-object", "T-any"},
+		Rules: []string{"T10", "T-tree", "T-list", "T-object", "T-any", "AL-1"},
 		Explain: "T10: the additionalProperties dispatch — rule text to mode (any/true, false, @type, a schema type name, anything else rejected) and mode to validator (any value / reject the key / kind check for object, array, scalar / the named type's validators), exhaustive over the declared modes. T-tree: union semantics of candidate validators — every live candidate receives each lexeme and a position is rejected only when every candidate failed (1..3 candidates x all outcomes). T-object: an unknown key is offered to the key shortcuts, then to additionalProperties, else rejected. T-any: additionalProperties any swallows one whole value.",
 		Assume: []string{
 			"which validators a types list expands to (transitive expansion, de-duplication by name), allOf inheritance and the matching of a key against a shortcut's string type are not decided",
@@ -205,7 +205,7 @@ func init() {
 	})
 	property(&Property{
 		ID:    "C04",
-		Rules: []string{"SH-1", "SH-visit", "T-allfail", "T7", "T4"},
+		Rules: []string{"SH-1", "SH-visit", "T-allfail", "T-enum", "T7", "T4"},
 		Explain: "SH-1: the schema-check path (literalChecker/mixedChecker) and the document path (literalValidator) both go through validator.ValidateLiteralValue, LiteralValidator.Validate is invoked nowhere else (so Check and Validate cannot disagree on what a rule means), and the array checker gives the example array's own length to minItems and maxItems. SH-visit: checkNode has a case for every concrete schema.Node type, descends into every child, and CheckRootSchema covers the root and every added type. T-allfail: a literal example is rejected iff every candidate checker rejects it, with the candidate's own positioned error when alone. T7/T4: the kind matrix and the item-count comparators used on that path.",
 		Assume: []string{
 			"that the shared validation is sufficient for every construct (e.g. array items typed by or) and the exact position reported for each violation are not decided",
@@ -229,7 +229,7 @@ func init() {
 	})
 	property(&Property{
 		ID:    "C18",
-		Rules: []string{"SH-2", "SA-E"},
+		Rules: []string{"SH-2", "T-enum", "SA-E"},
 		Explain: "SH-2: inline enum lists and named enum rules insert their items through the same constraint.NewEnumItem / (*Enum).Append (shared normalisation and duplicate rejection), and the enum-rule scanner's duplicate key uses the same normalisation steps. SA-E: the enum-rule scanner accepts exactly RFC 8259 arrays of scalars (exponents aside) with the reference event stream, so Values lists the literals in source order with exact spans.",
 		Assume: []string{
 			"the regex half (Go %q quoting when a regex type is turned into a schema, the third-party example generator, Len of the /P/ token) and the verdict equivalence itself are not decided",
